@@ -36,8 +36,33 @@ def heap_part(ctx):
     ctx.coverage["heap_half"] = json.loads(out.strip().splitlines()[-1])
 
 
+def stress_part(ctx):
+    """free-running OS threads (no scheduler, no model): the property itself evaluated on the real queue under real contention -
+    windows that the token scheduler cannot open (code between two hook points) are reached here"""
+    if not ctx.cc("hc15s", [os.path.join(vlib.HARNESS, "hc15s.c")], sanitize=False, opt="-O2"):
+        return
+    tot = {"rounds": 0, "produced": 0}
+    for k, prod in enumerate([1, 3, 6] if ctx.tier == "quick" else [1, 2, 3, 4, 6, 8, 12]):
+        rounds = 150000 if ctx.tier == "quick" else 2000000
+        rc, out = vlib.run([ctx.path("hc15s"), str(ctx.seed + k), str(rounds), str(prod)], timeout=1200)
+        try:
+            st = json.loads(out.strip().splitlines()[-1])
+        except (ValueError, IndexError):
+            ctx.violation("harness-crash", {"output": out[-600:], "producers": prod}, True)
+            continue
+        tot["rounds"] += st["rounds"]
+        tot["produced"] += st["produced"]
+        bad = {k2: v for k2, v in st.items() if k2 in ("peek_above_pending", "duplicates", "lost", "own_not_returned") and v}
+        if bad:
+            ctx.violation("queue-stress-oracle", {"argv": [ctx.seed + k, rounds, prod], "failures": bad,
+                                                  "meaning": "peek_above_pending: msg_queue_time_peek() returned a value larger than the time stamp of a message "
+                                                             "whose insertion had completed before the query began and that had not been extracted"}, True)
+    ctx.coverage["free_running_stress"] = tot
+
+
 def run(ctx):
     heap_part(ctx)
+    stress_part(ctx)
     ctx.trusted += [
         "C15: sequentially consistent interleaving of the individual shared-memory accesses of msg_queue_insert / "
         "msg_queue_insert_queued (load, CAS incl. spurious failure, exchange, walk); release/acquire NOT modelled",
